@@ -77,3 +77,15 @@ check('C03',
       'Signature level only (schema/row equality of the two runs is outside). The optimiser runs traced; reference run and comparison run untraced on the concrete data of the path. Sequences with two identical hints are excluded. Trusted: CrossHair+z3.',
       'CrossHair symbolic execution (z3) of mutators/app_mutator.py optimiser over symbolic mutation sequences; counterexamples replayed concretely',
       design_ref='5.3')
+
+check('C14',
+      'Bounded model checking: SQLExecutor.run_sql previews exactly what it executes (statement lists of symbolic shape, recording cursor); previewed parameter substitution stores the same value as parametrised execution (real SQLite); change_meta_unique_together/index_together are independent of set iteration order (builtin set replaced by a stand-in whose order is a symbolic permutation).',
+      'Partial: PYTHONHASHSEED itself is not a solver variable (set order is); preview-vs-execution SQL lists of the evolver are covered only through C03 assertion (4); the management-command text path is outside. One known finding (preview quoting of strings containing a quote). Trusted: CrossHair+z3.',
+      'CrossHair symbolic execution (z3) of utils/sql.py run_sql and db/common.py change_meta_* with a permutation-ordered set stand-in',
+      design_ref='5.11')
+
+check('C15',
+      'Bounded model checking of PurgeAppTask.prepare, DeleteApplication and DeleteModel through the real AppMutator/ModelMutator/MockModel/SQLite evolver over a two-app project whose labels, table names and M2M table names come from pools with prefix relations: exactly the named tables (and auto-created M2M tables) are dropped, exactly the named entries leave the signature, every other app is unchanged; purge tasks are queued iff --purge.',
+      'Signature + DROP-set kernel: rows/tables of other apps in a real database are outside. One known finding (purge crashes when a model relates to an earlier model of the same app). Trusted: CrossHair+z3.',
+      'CrossHair symbolic execution (z3) of evolve/purge_app_task.py, mutations/delete_*.py and the mutators over symbolic project layouts',
+      design_ref='5.12')
